@@ -458,6 +458,10 @@ class BasicReadStatementPatcherVisitor(BasicConstructVisitor):
             BasicRunCall("RUN ecb_read_filter", BasicExpressionList((inval, outval)))
             for outval, inval in rhs_to_temp.items()
         ]
+        # functions hoisted out of a target's subscript must not reuse the
+        # temporaries that hold the items just read
+        for filter_statement in filter_statements:
+            filter_statement.share_temps_with(statement)
 
         return BasicStatements([statement] + filter_statements, multi_line=False)
 
